@@ -142,11 +142,9 @@ def cmdIds (msg : List Byte) : List (Option Id) :=
       else (if t.head? = some 0 then [none] else []) ++ (prefixes t).map (fun u => some (hashDjb2 u))
   | _ => [none]
 
-/-- readings of a command message that arrives in fragments: those of the flattened message; a command text that is
-    not contiguous in memory and longer than the 128-byte scratch buffer may be refused
-    ("large unaligned text command") -/
-def cmdIdsFrag (frags : List (List Byte)) : List (Option Id) :=
-  cmdIds frags.flatten ++ (if frags.flatten.length > 130 then [none] else [])
+/-- readings of a command message that arrives in fragments: those of the flattened message, wherever the fragment
+    boundaries are -/
+def cmdIdsFrag (frags : List (List Byte)) : List (Option Id) := cmdIds frags.flatten
 
 /- ---------- abstract state ---------- -/
 structure Spec where
@@ -208,23 +206,24 @@ def stepRegister (sp : Spec) (id : Id) (out : Out) : Option Spec :=
     dispatched by hash from inside a handler and the handler reached that way answers `h`: no command text, or
     nobody to take it, fails (`Fail|Default`, event id cleared = "no default event"); an error of the command's
     handler is reported the same way -/
+def hashOutcome (sp : Spec) (m : List Byte) (h : HRes) (cid : Option Id) : List LogE × Int × Id :=
+  match cid with
+  | none => ([], failDefault, 0)
+  | some id2 =>
+    let left : Id := if h.zero then 0 else id2
+    match sp.lookup id2 with
+    | some r2 => if h.val < 0 then ([.call r2 id2], failDefault, 0) else ([.call r2 id2], h.val, left)
+    | none =>
+      match sp.fb with
+      | some r2 => ([.call r2 id2], h.val, left)
+      | none =>
+        if sp.bi then ([], (builtinAnswer id2 (some m)).val, if (builtinAnswer id2 (some m)).zero then 0 else id2)
+        else ([], failDefault, 0)
+
 def hashOutcomes (sp : Spec) (msg : Option (List Byte)) (h : HRes) : List (List LogE × Int × Id) :=
   match msg with
   | none => [([], failDefault, 0)]
-  | some m =>
-    (cmdIds m).flatMap fun cid =>
-      match cid with
-      | none => [([], failDefault, 0)]
-      | some id2 =>
-        let left : Id := if h.zero then 0 else id2
-        match sp.lookup id2 with
-        | some r2 => if h.val < 0 then [([.call r2 id2], failDefault, 0)] else [([.call r2 id2], h.val, left)]
-        | none =>
-          match sp.fb with
-          | some r2 => [([.call r2 id2], h.val, left)]
-          | none =>
-            if sp.bi then [([], (builtinAnswer id2 (some m)).val, if (builtinAnswer id2 (some m)).zero then 0 else id2)]
-            else [([], failDefault, 0)]
+  | some m => (cmdIds m).map (sp.hashOutcome m h)
 
 /-- delivery of an event with id `id` to `r`, answer `h`: exactly one invocation, then the bookkeeping; a handler
     that dispatches by hash (`nest`) adds the invocation made inside, and the bookkeeping uses what came back -/
